@@ -1,5 +1,7 @@
 import OV.Lemmas.C03Steps
 import OV.Lemmas.C03Uses
+import OV.Lemmas.C03FragA
+import OV.Lemmas.C03BkA
 /-!
 # C03 — `optimize()` never changes what a model computes
 
@@ -314,6 +316,55 @@ theorem fold_generic_fragment_preserves (sem : Sem V) (ctx : Ctx) (hnf : ctx.isF
     (he : evalGraph sem (d + 1) outer g args = some vs) :
     evalGraph sem (d + 1) outer (foldGraph ctx info g).2 args = some vs :=
   foldGraph_fragment sem ctx hnf hor info g hwf hnofresh d outer args hinfo vs he
+
+/-- **End-to-end theorem on fragment A** = generic folding + `Constant` nodes (`_process_constant_node`)
++ `Identity` nodes (the `identity` evaluator records an alias, `process_node` substitutes it into later
+inputs, `visit_graph` replaces graph outputs by their alias) + one-operand `Concat` and inference-mode
+`Dropout` with one declared output (the `concat`/`dropout` evaluators record `Identity(x)` on a fresh
+tape, `replace_node` renames its output, moves the uses, and the new node is visited next; `Dropout`
+below opset 12 has no evaluator and goes through the gate cascade) + `_clear_unused_initializers`.  For
+every graph of the fragment (`FragAWF`; no name of the form `%k`), every option tuple, every oracle
+table sound for the model's queries (`OracleSound`), constants truthfully annotated
+(`ConstInfoSound`, `ConstMarkSound`), the laws `Identity v = v`, `Concat [v] = v`,
+`Dropout (v :: rest)` returns `v` first when there is no `training_mode` operand (`ReplLaws`), every semantics, depth, enclosing
+environment and argument list: **the graph returned by the model of `FoldConstantsPass` computes what
+the original computes.**  Proof: `visitNodes_simA` (invariant: recorded aliases and constants hold
+in the environment and are never redefined later), `replaceOutputs_alias`, and — for the pruning —
+`visitNodes_bkA`: use counts follow the alias substitution and stay upper bounds of the real
+occurrences, every alias target is an input of an emitted node, so a popped initializer is
+unreferenced (`prune_ok_fragmentA`). -/
+theorem fold_fragmentA_preserves (sem : Sem V) (ctx : Ctx) (hnf : ctx.isFunction = false)
+    (hor : OracleSound sem ctx) (hid : IdentityLaw sem) (hrl : ReplLaws sem) (info : List (Name × VInfo)) (g : Graph)
+    (hwf : FragAWF sem ctx g) (hnofresh : ∀ k : Nat, cnt ("%" ++ toString k) g.nodes = 0)
+    (d : Nat) (outer : Env V) (args : List (Option V))
+    (hinfo : ConstInfoSound sem outer g args info)
+    (hinfoNF : ∀ x c, ((lookupA info x).getD {}).const = some c → NF x) (vs : List V)
+    (he : evalGraph sem (d + 1) outer g args = some vs) :
+    evalGraph sem (d + 1) outer (foldGraph ctx info g).2 args = some vs :=
+  foldGraph_fragmentA sem ctx hnf hor hid hrl info g hwf d outer args hinfo hinfoNF vs
+    (prune_ok_fragmentA 7 ctx hnf info g (fun n hn => FragA.toBk (hwf.nodes n hn).1) hnofresh) he
+
+/-- **`ConstMarkSound` is derivable** for the three `Constant` forms the semantics interprets (`value`,
+`value_ints`, `value_int`): if the token table is coherent with the semantics (`TokCoherent`: the
+token `_process_constant_node` finds for a `value` tensor denotes that tensor; the tokens it builds
+for `value_ints` / `value_int` denote those integers), then whatever constant the pass attributes to
+the node's output is what the node evaluates to.  This discharges the `ConstMarkSound` hypothesis of
+`fold_fragmentA_preserves` for such nodes. -/
+theorem const_mark_sound (sem : Sem V) (ctx : Ctx) (hco : TokCoherent sem ctx) (o : Name) (a : String × Attr)
+    (ha : (∃ t, a = ("value", .tensor t)) ∨ (∃ l, a = ("value_ints", .ints l)) ∨ (∃ i, a = ("value_int", .int i))) :
+    ConstMarkSound sem ctx (.mk "Constant" "" [] [o] [a] []) :=
+  constMarkSound_of_coherent sem ctx hco o a ha
+
+/-- …and before pruning no extra hypothesis is needed: the result of the node loop and of the
+graph-output replacement (`visit_graph`) refines the input on fragment A. -/
+theorem visit_graph_fragmentA_preserves (sem : Sem V) (ctx : Ctx) (hnf : ctx.isFunction = false)
+    (hor : OracleSound sem ctx) (hid : IdentityLaw sem) (hrl : ReplLaws sem) (info : List (Name × VInfo)) (g : Graph)
+    (hwf : FragAWF sem ctx g) (d : Nat) (outer : Env V) (args : List (Option V))
+    (hinfo : ConstInfoSound sem outer g args info)
+    (hinfoNF : ∀ x c, ((lookupA info x).getD {}).const = some c → NF x) (vs : List V)
+    (he : evalGraph sem (d + 1) outer g args = some vs) :
+    evalGraph sem (d + 1) outer (visitGraph ctx maxDepth (initialState g info) g).2 args = some vs :=
+  (visitGraph_fragmentA sem ctx hnf hor hid hrl info g hwf d 7 outer args hinfo hinfoNF vs he).1
 
 /-! ### partial evaluators (under the operator laws `OpLaws` and truthful annotations `InfoSound`) -/
 
@@ -782,6 +833,170 @@ theorem softmax_family_not_evaluated_below_13 (ctx : Ctx) (st : St) (n : Node) (
     oracleAnswer ctx st n v = some .fail := by
   unfold oracleAnswer refEvaluatorMissing
   rcases hop with h | h | h <;> simp [hd, hv, h]
+
+/-! ### non-vacuity of the fragment-A theorem: Constant + fold + Identity + output replacement all fire -/
+
+/-- every operator yields `3`, every constant is `3`; `Identity`, one-operand `Concat` and `Dropout` return their first operand -/
+def idSem : Sem Nat where
+  op := fun o _ _ args => match o, args with
+    | "Identity", [some v] => some [v]
+    | "Concat", [some v] => some [v]
+    | "Dropout", some v :: _ => some [v]
+    | _, _ => some [3]
+  ctl := fun _ _ _ _ _ => none
+  truth := fun _ => none
+  tensor := fun _ => 3
+  intsTensor := fun _ => 3
+  intTensor := fun _ => 3
+
+/-- `c = Constant; o = Mul(a, b); s = Sub(x, o); y = Identity(s); z = Div(y, c); w = Concat(z); u = Dropout(w)`, outputs `y, u` -/
+def gA : Graph :=
+  .mk ["x"] [("a", "t1"), ("b", "t2")]
+    [.mk "Constant" "" [] ["c"] [("value", .tensor "t1")] [],
+     .mk "Mul" "" [some "a", some "b"] ["o"] [] [],
+     .mk "Sub" "" [some "x", some "o"] ["s"] [] [],
+     .mk "Identity" "" [some "s"] ["y"] [] [],
+     .mk "Div" "" [some "y", some "c"] ["z"] [] [],
+     .mk "Concat" "" [some "z"] ["w"] [("axis", .int 0)] [],
+     .mk "Dropout" "" [some "w"] ["u"] [] []] ["y", "u"]
+
+/-- on `gA`: the `Mul` is folded, the input `y` of `Div` is replaced by its alias `s`, `Concat(z)` and `Dropout(w)` are
+replaced by `Identity(z)` (the second after alias substitution), the graph outputs `y`, `u` by their aliases `s`, `z` -/
+example : (foldGraph ctxE infoE gA).2.nodes.map (fun n => (n.op, n.inputs, n.outputs)) =
+      [("Constant", [], ["c"]), ("Sub", [some "x", some "o"], ["s"]), ("Identity", [some "s"], ["y"]),
+       ("Div", [some "s", some "c"], ["z"]), ("Identity", [some "z"], ["w"]), ("Identity", [some "z"], ["u"])] ∧
+    (foldGraph ctxE infoE gA).2.outputs = ["s", "z"] ∧ (foldGraph ctxE infoE gA).2.inits = [("o", "f")] ∧
+    (foldGraph ctxE infoE gA).1.err = none := by decide
+
+theorem idSem_oracleSound (ctx : Ctx) : OracleSound idSem ctx := by
+  intro st n v c _ hins
+  -- every argument is a constant, i.e. `3`
+  have hargs : ∀ (l : List (Option Name)), (∀ x, some x ∈ l → (st.constOf x).isSome = true) →
+      ∀ a ∈ constArgs idSem st l, a = none ∨ a = some 3 := by
+    intro l
+    induction l with
+    | nil => intro _ a ha; simp [constArgs] at ha
+    | cons y ys ih =>
+      intro hl a ha
+      have ih' := ih (fun x hx => hl x (List.mem_cons_of_mem _ hx))
+      cases y with
+      | none =>
+        simp only [constArgs, List.mem_cons] at ha
+        rcases ha with rfl | ha
+        · exact Or.inl rfl
+        · exact ih' a ha
+      | some x =>
+        simp only [constArgs, List.mem_cons] at ha
+        rcases ha with rfl | ha
+        · have := hl x List.mem_cons_self
+          cases hc : st.constOf x with
+          | none => rw [hc] at this; exact absurd this (by decide)
+          | some cc => exact Or.inr rfl
+        · exact ih' a ha
+  have hall := hargs n.inputs hins
+  show (match n.op, constArgs idSem st n.inputs with
+    | "Identity", [some v] => some [v]
+    | "Concat", [some v] => some [v]
+    | "Dropout", some v :: _ => some [v]
+    | _, _ => some [3]) = some [3]
+  split
+  · rename_i v' _ h
+    rcases hall (some v') (by rw [h]; simp) with h' | h'
+    · exact absurd h' (by simp)
+    · rw [Option.some.inj h']
+  · rename_i v' _ h
+    rcases hall (some v') (by rw [h]; simp) with h' | h'
+    · exact absurd h' (by simp)
+    · rw [Option.some.inj h']
+  · rename_i v' _ _ h
+    rcases hall (some v') (by rw [h]; simp) with h' | h'
+    · exact absurd h' (by simp)
+    · rw [Option.some.inj h']
+  · rfl
+
+theorem idSem_replLaws : ReplLaws idSem := by
+  refine ⟨fun _ _ => rfl, ?_⟩
+  intro attrs v rest vs _ h
+  have : vs = [v] := by
+    have h' : some [v] = some vs := h
+    exact (Option.some.inj h').symm
+  rw [this]; rfl
+
+theorem infoE_dom {x : Name} {c : CInfo} (hx : ((lookupA infoE x).getD {}).const = some c) : x = "a" ∨ x = "b" := by
+  by_cases ha : x = "a"
+  · exact Or.inl ha
+  · by_cases hb : x = "b"
+    · exact Or.inr hb
+    · exfalso
+      have h1 : ("a" == x) = false := by simpa using fun e => ha e.symm
+      have h2 : ("b" == x) = false := by simpa using fun e => hb e.symm
+      simp [infoE, lookupA, List.find?, h1, h2] at hx
+
+theorem nf_of_head (s : String) (hs : s.toList.head? ≠ some '%') : NF s := fun k => (fresh_ne k s hs).symm
+
+example (outer : Env Nat) (args : List (Option Nat)) (vs : List Nat)
+    (he : evalGraph idSem 1 outer gA args = some vs) :
+    evalGraph idSem 1 outer (foldGraph ctxE infoE gA).2 args = some vs := by
+  refine fold_fragmentA_preserves idSem ctxE rfl (idSem_oracleSound ctxE) (fun _ _ => rfl) idSem_replLaws infoE gA
+    ⟨?_, by decide, ?_, ?_⟩ ?_ 0 outer args ⟨?_, ?_⟩ ?_ vs he
+  · intro n hn
+    simp only [gA, Graph.nodes, List.mem_cons, List.mem_nil_iff, or_false] at hn
+    rcases hn with rfl | rfl | rfl | rfl | rfl | rfl | rfl
+    · exact ⟨⟨rfl, by decide, Or.inr (Or.inl ⟨by decide, rfl, "c", rfl⟩)⟩, fun _ =>
+        constMarkSound_of_coherent idSem ctxE ⟨fun _ _ _ => rfl, fun _ => rfl, fun _ => rfl⟩ "c" _ (Or.inl ⟨"t1", rfl⟩)⟩
+    · exact ⟨⟨rfl, by decide, Or.inl ⟨by decide, fun v => rfl⟩⟩, fun h => absurd h (by decide)⟩
+    · exact ⟨⟨rfl, by decide, Or.inl ⟨by decide, fun v => rfl⟩⟩, fun h => absurd h (by decide)⟩
+    · exact ⟨⟨rfl, by decide, Or.inr (Or.inr (Or.inl ⟨rfl, rfl, "s", "y", rfl, rfl, by decide⟩))⟩, fun h => absurd h (by decide)⟩
+    · exact ⟨⟨rfl, by decide, Or.inl ⟨by decide, fun v => rfl⟩⟩, fun h => absurd h (by decide)⟩
+    · refine ⟨⟨rfl, by decide, Or.inr (Or.inr (Or.inr ⟨rfl, "z", "w", rfl, ?_, Or.inl ⟨rfl, rfl⟩⟩))⟩, fun h => absurd h (by decide)⟩
+      intro y hy
+      have : y = "z" := by simpa [Node.inputs] using hy
+      subst this; decide
+    · refine ⟨⟨rfl, by decide, Or.inr (Or.inr (Or.inr ⟨rfl, "w", "u", rfl, ?_, Or.inr ⟨rfl, [], rfl, by decide⟩⟩))⟩, fun h => absurd h (by decide)⟩
+      intro y hy
+      have : y = "w" := by simpa [Node.inputs] using hy
+      subst this; decide
+  · intro n hn o ho
+    simp only [gA, Graph.nodes, List.mem_cons, List.mem_nil_iff, or_false] at hn
+    rcases hn with rfl | rfl | rfl | rfl | rfl | rfl | rfl <;>
+      (have := ho; simp only [Node.outputs, List.contains_cons, List.contains_nil, Bool.or_false, beq_iff_eq] at this; subst this; decide)
+  · intro n hn y hy
+    simp only [gA, Graph.nodes, List.mem_cons, List.mem_nil_iff, or_false] at hn
+    rcases hn with rfl | rfl | rfl | rfl | rfl | rfl | rfl <;>
+      (simp only [mentionsTop, Node.inputs, Node.outputs, List.contains_cons, List.contains_nil, Bool.or_false, Bool.or_eq_true,
+          beq_iff_eq, Option.some.injEq, Bool.false_or] at hy
+       first
+         | (rcases hy with (rfl | rfl) | rfl <;> exact nf_of_head _ (by decide))
+         | (rcases hy with rfl | rfl <;> exact nf_of_head _ (by decide))
+         | (subst hy; exact nf_of_head _ (by decide)))
+  · intro k
+    simp only [cnt, gA, Graph.nodes, List.flatMap_cons, List.flatMap_nil, Node.inputs, List.append_nil, List.cons_append,
+      List.nil_append]
+    apply List.count_eq_zero.mpr
+    simp only [List.mem_cons, Option.some.injEq, List.mem_nil_iff, or_false]
+    intro h
+    rcases h with h | h | h | h | h | h | h | h | h
+    · exact fresh_ne k "a" (by decide) h
+    · exact fresh_ne k "b" (by decide) h
+    · exact fresh_ne k "x" (by decide) h
+    · exact fresh_ne k "o" (by decide) h
+    · exact fresh_ne k "s" (by decide) h
+    · exact fresh_ne k "y" (by decide) h
+    · exact fresh_ne k "c" (by decide) h
+    · exact fresh_ne k "z" (by decide) h
+    · exact fresh_ne k "w" (by decide) h
+  · intro ρ0 h0 x c hx
+    show ρ0 x = some 3
+    rcases infoE_dom hx with rfl | rfl
+    · exact (initializer_is_constant idSem (evalGraph idSem 0) outer ["x"] [("a", "t1"), ("b", "t2")] gA.nodes ["y", "u"] []
+        args "a" "t1" ⟨[], [("b", "t2")], rfl, by decide⟩ (by decide) (by simp) ρ0 ρ0 h0 rfl :)
+    · exact (initializer_is_constant idSem (evalGraph idSem 0) outer ["x"] [("a", "t1"), ("b", "t2")] gA.nodes ["y", "u"] []
+        args "b" "t2" ⟨[("a", "t1")], [], rfl, by decide⟩ (by decide) (by simp) ρ0 ρ0 h0 rfl :)
+  · intro x c hx m hm
+    simp only [gA, Graph.nodes, List.mem_cons, List.mem_nil_iff, or_false] at hm
+    rcases infoE_dom hx with rfl | rfl <;> rcases hm with rfl | rfl | rfl | rfl | rfl | rfl | rfl <;> decide
+  · intro x c hx
+    rcases infoE_dom hx with rfl | rfl <;> exact nf_of_head _ (by decide)
 
 /-! ### a refuted clause (finding C03-D1) -/
 
